@@ -103,6 +103,12 @@ PROPS = {
         "shards": {"quick": 16, "thorough": 16}, "timeout": {"quick": 800, "thorough": 14000},
         "floors": {"quick": {"requests_with_injected_failure": 150, "switch_states_checked": 2000}, "thorough": {"requests_with_injected_failure": 600}},
     },
+    "C11": {
+        "test": "TestVerif_C11", "level": "exploration", "owns_races": True, "gomaxprocs": 8,
+        "rule": "2-8 associations stream establishment / modification / deletion concurrently (14-26 requests each, fixed/CHOOSE/allocated identifiers) against one agent, sharing 2 gNB addresses and 3 application filters on purpose, datapath reply delay 0-5 ms, both datapaths, under the race detector; every response must be the one the request gets alone (exactly one, accepted); at the quiescent point the datapath is compared with the union of the per-association reference images (ID-agnostic), then everything is deleted concurrently and allocator occupancy must be back to the baseline; distinct = <datapath, peers, delay, overlapping request pairs / 20>",
+        "shards": {"quick": 12, "thorough": 16}, "timeout": {"quick": 800, "thorough": 14000},
+        "floors": {"quick": {"concurrent_runs": 40, "request_pairs_overlapping_across_associations": 2000, "union_images_compared": 30}, "thorough": {"concurrent_runs": 2000}},
+    },
     "C10": {
         "test": "TestVerif_C10", "level": "exploration",
         "rule": "scenario = {0..n associations (some >100)} x {0-3 sessions} x trigger per association {release, silence->read timeout(+heartbeat failure), unanswered heartbeats, live} x requests in flight x datapath reply delay x PFCPIface.Stop() at a drawn offset (+-3.5 ms around the coinciding triggers), fresh agent per scenario, plus a 'refresh' family (association ends without Stop, same address:port associates afresh, bystander association checked); distinct = distinct interleaving signatures (datapath, heartbeat on/off, delay, stop offset in ms, multiset of per-association <trigger, order relative to Stop, release answered?, sessions>)",
